@@ -84,6 +84,18 @@ def reader_ownership(ctx, rule):
                           "reader starts at ordinal 0",
                           "a Sequences reader is built with current_record = %s outside/other than new()=0"
                           % show(fs.get("current_record", ("none",))), line_of(n))
+    # the underlying record iterator is consumed only by Sequences::next: any other consumer (an `nth`/`skip`
+    # override, a helper, another crate — the field is pub) would take records without advancing the ordinal
+    users = {}
+    for fv in ctx.all_views():
+        for n in fv.nodes:
+            if n.get("k") == "field" and n["name"] == "records" and n.get("adt") == "ktio::seq::Sequences":
+                users.setdefault(fv.path, n)
+    extra = sorted(p_ for p_ in users if p_ != NEXT)
+    ctx.check(rule, "Sequences.records:consumers", not extra and NEXT in users,
+              "the underlying record iterator is touched only by Sequences::next",
+              "`Sequences.records` is also used by %s: records can be consumed without the ordinal advancing "
+              "(numbering 0,1,2,.. would restart or skip)" % extra, line_of(users[extra[0]]) if extra else None)
     if n_lit < 2:
         ctx.fail(rule, "Sequence_literal:floor", "expected the 2 Sequence literals of Sequences::next, found %d" % n_lit)
     if n_w < 4:
